@@ -42,6 +42,7 @@ m("M15_min_partial_cmp_unwrap","C12",I+"minimum.rs","            if val < min {"
 m("M16_mfi_count_minus_one","C12",I+"money_flow_index.rs","        if self.count < self.period {\n            self.count = self.count + 1;","        let _remaining = self.period - self.count - 1;\n        if self.count < self.period {\n            self.count = self.count + 1;")
 m("M17_ema_debug_assert_finite","C12",I+"exponential_moving_average.rs","    fn next(&mut self, input: f64) -> Self::Output {\n        if self.is_new {","    fn next(&mut self, input: f64) -> Self::Output {\n        debug_assert!(input.is_finite());\n        if self.is_new {")
 m("M17b_roc_display_panics_on_large_period","C12",I+"rate_of_change.rs","        write!(f, \"ROC({})\", self.period)","        write!(f, \"ROC({})\", u8::try_from(self.period).unwrap())")
+m("M17d_ema_normalise_loop_hangs_on_inf","C12",I+"exponential_moving_average.rs","            self.current = self.k * input + (1.0 - self.k) * self.current;\n","            let mut scaled = input;\n            let mut shift = 0;\n            // keep intermediate products away from overflow\n            while scaled.abs() > 1e300 {\n                scaled /= 2.0;\n                shift += 1;\n            }\n            self.current = self.k * scaled * 2f64.powi(shift) + (1.0 - self.k) * self.current;\n")
 # ---- C17
 m("M18_sma_subtracts_wrong_slot","C17",I+"simple_moving_average.rs","        let old_val = self.deque[self.index];\n        self.deque[self.index] = input;\n\n        self.index = if self.index + 1 < self.period {\n            self.index + 1\n        } else {\n            0\n        };\n","        self.deque[self.index] = input;\n\n        self.index = if self.index + 1 < self.period {\n            self.index + 1\n        } else {\n            0\n        };\n        let old_val = if self.count < self.period { 0.0 } else { self.deque[(self.index + 1) % self.period] };\n")
 m("M19_max_rescan_skips_last_slot","C17",I+"maximum.rs","        for (i, &val) in self.deque.iter().enumerate() {","        for (i, &val) in self.deque.iter().enumerate().take(self.period.max(2) - 1) {")
